@@ -9,6 +9,8 @@ template <bool MM> struct MinMaxHelp { template <class S> static bool mn(S&, int
 template <> struct MinMaxHelp<true> {
   template <class S> static bool mn(S& s, int& id) { auto p = s.extract_min(); if (!p) return false; chk_live(&*p); id = p->id; return true; }
   template <class S> static bool mx(S& s, int& id) { auto p = s.extract_max(); if (!p) return false; chk_live(&*p); id = p->id; return true; } };
+template <bool T> struct TravHelp { template <class S, class F> static void go(S&, F) {} };
+template <> struct TravHelp<true> { template <class S, class F> static void go(S& s, F f) { for (auto it = s.begin(); it != s.end(); ++it) f(it->key, it->id); } };
 // G1: value-based set over HP / DHP (lists, MichaelHashSet, SplitListSet, SkipListSet, EllenBinTreeSet)
 template <class S, unsigned EXTRA = 0, unsigned LESS = 0> struct GcSetAd {
   S& s; GcSetAd(S& s_) : s(s_) {}
@@ -28,7 +30,7 @@ template <class S, unsigned EXTRA = 0, unsigned LESS = 0> struct GcSetAd {
   bool extmax(int& id) { return MinMaxHelp<(EXTRA & C_MINMAX) != 0>::mx(s, id); }
   bool unl(int, int) { return false; }
   size_t size() { return s.size(); } bool empty() { return s.empty(); } void clear() { s.clear(); }
-  template <class F> void traverse(F f) { for (auto it = s.begin(); it != s.end(); ++it) f(it->key, it->id); }
+  template <class F> void traverse(F f) { TravHelp<(LESS & C_TRAV) == 0>::go(s, f); }
   bool consistent() { return true; }
 };
 // G2: the same containers over RCU: extract -> exempt_ptr (outside the lock), get -> raw_ptr / pointer (inside the lock)
@@ -59,5 +61,58 @@ template <class S> struct NogcSetAd {
   size_t size() { return s.size(); } bool empty() { return s.empty(); } void clear() {}
   template <class F> void traverse(F f) { for (auto it = s.begin(); it != s.end(); ++it) f(it->key, it->id); }
   bool consistent() { return true; }
+};
+}
+namespace drv {
+// G4: FeldmanHashSet: elements addressed by their hash (here: a table-driven function of the key)
+struct FItem { size_t hash; int key; int id; FItem() : hash(0), key(0), id(0) {} FItem(size_t h, int k, int i) : hash(h), key(k), id(i) {}
+  FItem(const FItem& o) : hash(o.hash), key(o.key), id(o.id) { if (o.id == DEAD) vs::report_uad(&o, 98); } ~FItem() { id = DEAD; } };
+struct fitem_accessor { size_t const& operator()(FItem const& v) const { return v.hash; } };
+template <class S, bool RCUV = false, class RCU = void> struct FeldmanAd {
+  S& s; FeldmanAd(S& s_) : s(s_) {}
+  static size_t hf(int k) { return item_hash::hash_of(k); }
+  unsigned caps() const { return C_INSF | C_UPD | C_ERA | C_ERAF | C_EXT | C_GET | C_FINDF | C_EMP | C_TRAV | C_CLEAR | (std::is_same<typename S::item_counter, cds::atomicity::empty_item_counter>::value ? 0u : (unsigned)C_SIZE); }
+  bool ins(int k, int id) { return s.insert(FItem(hf(k), k, id)); }
+  bool emp(int k, int id) { return s.emplace(hf(k), k, id); }
+  bool insf(int k, int id, int& calls) { return s.insert(FItem(hf(k), k, id), [&](FItem&) { ++calls; }); }
+  int upd(int k, int id, bool allow, int& seen) { auto r = s.update(FItem(hf(k), k, id), [&](FItem&, FItem* old) { if (old) seen = old->id; }, allow); return r.first ? (r.second ? 3 : 2) : 0; }
+  bool era(int k) { return s.erase(hf(k)); }
+  bool eraf(int k, int& seen) { return s.erase(hf(k), [&](FItem const& it) { seen = it.id; }); }
+  bool ext(int k, int& seen) { auto gp = s.extract(hf(k)); if (!gp) return false; chk_live(&*gp); seen = gp->id; return true; }
+  template <bool R> typename std::enable_if<!R, bool>::type get_impl(int k, int& seen) { auto gp = s.get(hf(k)); if (!gp) return false; chk_live(&*gp); seen = gp->id; return true; }
+  template <bool R> typename std::enable_if<R, bool>::type get_impl(int k, int& seen) { typename RCU::scoped_lock l; auto* p = s.get(hf(k)); if (!p) return false; chk_live(p); seen = p->id; return true; }
+  bool get(int k, int& seen) { return get_impl<RCUV>(k, seen); }
+  bool find(int k) { return s.contains(hf(k)); }
+  bool findf(int k, int& seen) { return s.find(hf(k), [&](FItem& it) { seen = it.id; }); }
+  bool extmin(int&) { return false; } bool extmax(int&) { return false; } bool unl(int, int) { return false; }
+  size_t size() { return s.size(); } bool empty() { return s.empty(); } void clear() { s.clear(); }
+  template <bool R, class F> typename std::enable_if<!R>::type trav_impl(F f) { for (auto it = s.begin(); it != s.end(); ++it) f(it->key, it->id); }
+  template <bool R, class F> typename std::enable_if<R>::type trav_impl(F f) { typename RCU::scoped_lock l; for (auto it = s.begin(); it != s.end(); ++it) f(it->key, it->id); }
+  template <class F> void traverse(F f) { trav_impl<RCUV>(f); }
+  bool consistent() { return true; }
+};
+}
+namespace drv {
+// G5: BronsonAVLTreeMap<RCU, int, MVal>
+struct MVal { int id; MVal() : id(0) {} MVal(int i) : id(i) {} MVal(const MVal& o) : id(o.id) { if (o.id == DEAD) vs::report_uad(&o, 98); } ~MVal() { id = DEAD; } };
+template <class S> struct BronsonAd {
+  S& s; BronsonAd(S& s_) : s(s_) {}
+  unsigned caps() const { return C_INSF | C_UPD | C_ERA | C_ERAF | C_EXT | C_FINDF | C_EMP | C_MINMAX | C_CHECK | C_CLEAR | (std::is_same<typename S::item_counter, cds::atomicity::empty_item_counter>::value ? 0u : (unsigned)C_SIZE); }
+  bool ins(int k, int id) { return s.insert(k, MVal(id)); }
+  bool emp(int k, int id) { return s.emplace(int(k), id); }
+  bool insf(int k, int id, int& calls) { return s.insert_with(k, [&](int const&, MVal& v) { v.id = id; ++calls; }); }
+  int upd(int k, int id, bool allow, int& seen) { auto r = s.update(k, [&](bool bNew, int const&, MVal& v) { if (bNew) v.id = id; else seen = v.id; }, allow); return r.first ? (r.second ? 3 : 2) : 0; }
+  bool era(int k) { return s.erase(k); }
+  bool eraf(int k, int& seen) { return s.erase(k, [&](int const&, MVal& v) { seen = v.id; }); }
+  bool ext(int k, int& seen) { auto ep = s.extract(k); if (!ep) return false; seen = ep->id; return true; }
+  bool get(int, int&) { return false; }
+  bool find(int k) { return s.contains(k); }
+  bool findf(int k, int& seen) { return s.find(k, [&](int const&, MVal& v) { seen = v.id; }); }
+  bool extmin(int& id) { auto ep = s.extract_min(); if (!ep) return false; id = ep->id; return true; }
+  bool extmax(int& id) { auto ep = s.extract_max(); if (!ep) return false; id = ep->id; return true; }
+  bool unl(int, int) { return false; }
+  size_t size() { return s.size(); } bool empty() { return s.empty(); } void clear() { s.clear(); }
+  template <class F> void traverse(F) {}
+  bool consistent() { return s.check_consistency(); }
 };
 }
